@@ -1763,6 +1763,12 @@ class Ev(object):
             init = ("func", dc, cls)
         if init is None or init[0] != "func":
             if args or kw:
+                ext = [b for k_ in cls.mro() for b in k_.extbases if b.rsplit(".", 1)[-1] != "object"]
+                if ext:
+                    # the constructor comes from a base class outside the package (NamedTuple, Enum, ...): not modelled -
+                    # and therefore not a decided failure
+                    raise AnalysisError("%s:%d: %s(...) is constructed by its external base class %s: outside the analysable subset - no verdict"
+                                        % (cls.mod.relpath, cls.node.lineno, cls.name, ext[0]))
                 self.do_raise(st, "TypeError", site, "%s() takes no arguments" % cls.name)
                 return []
             return [Outcome("return", o, st)]
